@@ -10,7 +10,7 @@
    undefined) of exactly the IEEE-754 roundToIntegral result / nextUp / nextDown. *)
 From Coq Require Import ZArith Bool.
 From Flocq Require Import Core BinarySingleNaN.
-From Tetl Require Import Lib.Base C16.Model C16.Spec C16.ProofsFloor C16.ProofsRound C16.ProofsNext C16.ProofsLerp C16.ProofsMidpoint.
+From Tetl Require Import Lib.Base C16.Model C16.Spec C16.ProofsFloor C16.ProofsRound C16.ProofsNext C16.ProofsLerp C16.ProofsMidpoint C16.ProofsFmod.
 Local Open Scope Z_scope.
 
 (* gcem floor / ceil / trunc (after e1bfd70, 9f69bd4, 8aa460f): constant evaluation of
@@ -119,3 +119,43 @@ Theorem C16_midpoint_no_overflow :
   is_finite (e_midpoint prec emax Hp Hpe a b) = true.
 Proof. exact e_midpoint_finite. Qed.
 Print Assumptions C16_midpoint_no_overflow.
+
+(* ... and it is the correctly rounded (a + b) / 2 (round to nearest even, IEEE sign of a zero sum),
+   bit for bit, for EVERY pair of finite operands — every format with 2 <= prec, prec + 7 <= 2 emax
+   (binary32: 31 <= 256, binary64: 60 <= 2048, x87: 71 <= 32768); "at most one inexact operation" *)
+Theorem C16_midpoint_exact :
+  forall prec emax (Hp : Prec_gt_0 prec) (Hpe : Prec_lt_emax prec emax), 2 <= prec -> prec + 7 <= 2 * emax ->
+  forall a b : binary_float prec emax, is_finite a = true -> is_finite b = true ->
+  spec_midpoint prec emax Hp Hpe a b = Some (e_midpoint prec emax Hp Hpe a b).
+Proof. exact e_midpoint_exact. Qed.
+Print Assumptions C16_midpoint_exact.
+Theorem C16_midpoint_exact_formats :
+  (forall a b : b32, is_finite a = true -> is_finite b = true ->
+     spec_midpoint 24 128 p32 pe32 a b = Some (e_midpoint 24 128 p32 pe32 a b)) /\
+  (forall a b : b64, is_finite a = true -> is_finite b = true ->
+     spec_midpoint 53 1024 p64 pe64 a b = Some (e_midpoint 53 1024 p64 pe64 a b)) /\
+  (forall a b : b80, is_finite a = true -> is_finite b = true ->
+     spec_midpoint 64 16384 p80 pe80 a b = Some (e_midpoint 64 16384 p80 pe80 a b)).
+Proof. repeat split; apply e_midpoint_exact; lia. Qed.
+Print Assumptions C16_midpoint_exact_formats.
+
+(* gcem fmod (exact binary long division; the constant-evaluation path of etl::fmod): whenever the
+   fuelled model returns a value (it has no undefined step; the fuel, 2 emax + 2 prec + 8 iterations
+   per loop, exceeds the number of binades of the format) that value is, bit for bit, the C fmod:
+   exact remainder of the truncated quotient, sign of x also for a zero result, NaN for NaN
+   operands / infinite x / zero y, x for infinite y.  Every format with 2 <= prec. *)
+Theorem C16_gcem_fmod_exact :
+  forall prec emax (Hp : Prec_gt_0 prec) (Hpe : Prec_lt_emax prec emax), 2 <= prec ->
+  forall x y v : binary_float prec emax,
+  g_fmod prec emax Hp Hpe x y = Ok v -> v = spec_fmod prec emax Hp Hpe x y.
+Proof. exact g_fmod_exact_thm. Qed.
+Print Assumptions C16_gcem_fmod_exact.
+
+(* gcem remainder (constant-evaluation path of etl::remainder): IEC 60559 remainder — quotient rounded
+   to nearest, ties to even; exact; a zero result has the sign of x.  Same reading as above. *)
+Theorem C16_gcem_remainder_exact :
+  forall prec emax (Hp : Prec_gt_0 prec) (Hpe : Prec_lt_emax prec emax), 2 <= prec ->
+  forall x y v : binary_float prec emax,
+  g_remainder prec emax Hp Hpe x y = Ok v -> v = spec_remainder prec emax Hp Hpe x y.
+Proof. exact g_remainder_exact_thm. Qed.
+Print Assumptions C16_gcem_remainder_exact.
